@@ -28,6 +28,8 @@ pub struct DispSum {
     pub cost: Decimal,
     pub gain: Decimal,
     pub legs: BTreeMap<(String, Option<NaiveDate>), LegSum>,
+    /// how many Disposal records the report holds for this (security, date): must be one
+    pub entries: usize,
 }
 
 #[derive(Debug, Clone, Default, PartialEq)]
@@ -69,6 +71,7 @@ pub fn summarize(r: &TaxReport, skip_ticker: Option<&str>) -> RepSum {
             ys.count += 1;
             s.order.push((d.ticker.clone(), d.date));
             let e = s.disposals.entry((d.ticker.clone(), d.date)).or_default();
+            e.entries += 1;
             e.q += d.quantity;
             e.gross += d.gross_proceeds;
             e.net += d.proceeds;
@@ -111,6 +114,7 @@ pub fn compare(a: &RepSum, b: &RepSum, tol: Decimal, years: bool) -> Diff {
         match b.disposals.get(k) {
             None => d.deep.push(format!("disposal {} {} only in first", k.0, k.1)),
             Some(y) => {
+                if x.entries != y.entries { d.deep.push(format!("{} {}: reported as {} vs {} separate disposals", k.0, k.1, x.entries, y.entries)); }
                 if !near(x.q, y.q, tol) { d.deep.push(format!("{} {}: quantity {} vs {}", k.0, k.1, x.q, y.q)); }
                 if !near(x.gross, y.gross, tol) { d.deep.push(format!("{} {}: gross proceeds {} vs {}", k.0, k.1, x.gross, y.gross)); }
                 if !near(x.net, y.net, tol) { d.deep.push(format!("{} {}: net proceeds {} vs {}", k.0, k.1, x.net, y.net)); }
